@@ -38,6 +38,29 @@ def queries(tier):
     for extra in (0, 1, 2):
         qs.append(Query("pipe-reap-order-holders%d" % extra, "c14/pipe_reap.c", tus=TUS, env=PENV, defs={"EXTRA": extra}, unwind=30, timeout=300, group="c14/pipe_reap.c",
                         params={"kernel": "nni_pipe_close / pipe_reap / nni_pipe_find / rele / pipe_destroy", "other_reference_holders": extra, "looked_up_id": "any 32-bit value"}))
+    qs += inproc_ep_queries(tier)
+    return qs
+
+
+def inproc_ep_queries(tier):
+    """the inproc rendezvous (real inproc.c endpoint code): what a dialer is told when the listener goes away decides whether it redials"""
+    from vp import skel
+    qs = []
+    IENV = ["env_alloc.c", "env_misc.c", "env_sync.c", "env_aio.c", "env_msg.c", "env_pipe.c", "env_libc.c"]
+    words = ["B K(0,0) A(1) CL", "B A(0) K(0,1) CL", "K(0,0) B K(0,1) A(2)", "B K(0,0) K(1,1) A(2) A(3)", "B A(0) A(1) K(1,2) K(0,3)", "B K(0,0) CL B2 K(0,1)",
+             "B K(0,0) K(1,1) CL", "B A(0) A(1) CL", "B K(0,0) X(0) A(1)", "B K(0,0) CD(0) A(1)", "B K(0,0) K(1,1) CD(0) A(2)",
+             "B K(0,0) K(1,1) X(0) A(2)", "B B2", "B2", "B K(0,0) A(1) K(0,2) A(3)", "B K(1,0) K(0,1) A(2) CL", "B A(0) K(0,1) X(0) X(1) CL", "B K(0,0) CL CD(0)",
+             "B A(0) CD(0) K(1,1)"]
+    if tier != "quick":
+        words += ["B K(0,0) K(1,1) A(2) CL", "B A(0) A(1) K(0,2) CL", "B K(0,0) K(1,1) X(1) A(2) A(3)", "B K(0,0) CD(0) K(1,1) A(2)",
+                  "K(0,0) K(1,1) B K(0,2) A(3)", "B K(0,0) A(1) CL B2", "B CL B2 K(0,0)"]
+    for w in words:
+        qs.append(Query("inproc-ep-%s" % skel.tag(w), "c14/inproc_ep.c", tus=["core/list.c", "core/refcnt.c", "core/strs.c"], env=IENV, defs={"SKEL": w}, cdefs=["-DENV_MSG_CAP=8"],
+                        unwind=12, unwind_rules=KIT_RULES, timeout=300, group="c14/inproc_ep.c", params={"unit": "sp/transport/inproc/inproc.c endpoints", "skeleton": w}))
+    for w in ("B K(0,0) A(1)", "B A(0) K(0,1)"):
+        qs.append(Query("inproc-ep-failpair-%s" % skel.tag(w), "c14/inproc_ep.c", tus=["core/list.c", "core/refcnt.c", "core/strs.c"], env=IENV, defs={"SKEL": w, "FAILPAIR": 1},
+                        cdefs=["-DENV_MSG_CAP=8"], unwind=12, unwind_rules=KIT_RULES, timeout=300, group="~c14/inproc_ep.c#failpair",
+                        params={"unit": "sp/transport/inproc/inproc.c endpoints", "skeleton": w, "fault": "pair allocation fails"}))
     return qs
 
 MANIFEST = {
